@@ -341,12 +341,18 @@ def check(case):
         first = oracle(fm, model, ops)
         if first:
             return first
+        held = {name: (op.get_result(), _plain(op.get_result())) for name, op in ops.items()}
         fm2, fails = cm.built(case[2])
         if fails:
             return fails
         second = oracle(fm2, case[2], ops)
         for f in second:
             f.clause = 'after-another-model:' + f.clause
+        if not second:
+            for name, (obj, was) in held.items():
+                if _plain(obj) != was:
+                    second.append(Fail('earlier-result-changed-by-later-execution:' + name, {'was': repr(was)[:150], 'now': repr(_plain(obj))[:150]}))
+                    break
         return second
     if case[0] == 'SF':
         return _failure_history(model)
@@ -354,6 +360,14 @@ def check(case):
     if fails:
         return fails
     return oracle(fm, model)
+
+
+def _plain(res):
+    if isinstance(res, dict):
+        return tuple(sorted((getattr(k, 'name', k), tuple(getattr(v, 'name', v) for v in vs)) for k, vs in res.items()))
+    if isinstance(res, (list, tuple)):
+        return tuple(getattr(x, 'name', x) for x in res)
+    return res
 
 
 FOREIGN = sh.M(sh.F('Zq', [sh.R(1, 1, [sh.F('Yq')]), sh.R(0, 1, [sh.F('Xq')])]))
